@@ -27,7 +27,7 @@ def run(tier, seed):
              (A.link_external_model('C10'),), (A.link_external_group('C10'), None, A.replay_link_external_group), (A.set_arrays_inplace('C10'),), (A.set_hi_name('C10'), None, A.replay_hi_names), (__import__('contracts.fn_registry', fromlist=['x']).find_or_add('C10'), None, __import__('contracts.fn_registry', fromlist=['x']).replay_find_or_add), (A.extparam_link_model('C10'),), (A.extparam_link_group('C10'), None, A.replay_extparam_group), (A.extservice_link('C10'),),
              (A.model_get('C10'),)]
     from contracts import fn_registry as GR
-    items += [(GR.one_idx2uid('C10'),), (GR.model_idx2uid('C10'), None, GR.replay_model_idx2uid)]
+    items += [(GR.one_idx2uid('C10'), None, GR.replay_model_idx2uid), (GR.model_idx2uid('C10'), None, GR.replay_model_idx2uid)]
     run_contracts(pack, items)
     A.bijection_lemmas(pack, 'C10')
     from contracts.packutil import native_guard
